@@ -12,19 +12,21 @@ for d in sorted(os.listdir(os.path.join(V, 'seeded'))):
     if not os.path.exists(mf): continue
     m = json.load(open(mf))
     own = m.get('checks', {}).get(m['property'], {})
-    others = sorted(p for p, r in mx.get(d, {}).items() if isinstance(r, dict) and r.get('verdict') == 'X' and p != m['property'])
+    others = sorted(set([p for p, r in mx.get(d, {}).items() if isinstance(r, dict) and r.get('verdict') == 'X' and p != m['property']] +
+                        [p for p, r in m.get('checks', {}).items() if p != m['property'] and r.get('verdict') == 'DETECTED']))
+    th = m.get('checks_thorough', {}).get(m['property'])
     sig = '; '.join(sorted({s.split("'")[3] for s in own.get('signatures', []) if s.count("'") >= 4}))
     rows.append((d, m['property'], (m.get('summary') or '').replace('|', '/').replace('\n', ' ')[:230],
-                 (m.get('needs') or '').replace('|', '/').replace('\n', ' ')[:200], own.get('verdict', '?'), sig, ' '.join(others)))
+                 (m.get('needs') or '').replace('|', '/').replace('\n', ' ')[:200], own.get('verdict', '?') + (' (thorough: %s)' % th['verdict'] if th else ''), sig, ' '.join(others)))
 with open(os.path.join(V, 'seeded', 'README.md'), 'w') as fp:
     fp.write('# Seeded changes (written by independent sub-agents from the property text only; each confirmed in a scratch worktree)\n\n')
     fp.write('`tools/seed_eval.py` confirmed for every entry: the 30 baseline tests still pass with the change, the demonstration fails with it and passes without it. '
-             '"own check" is the verdict of the quick tier of the property the change was written against (seed 0); "also caught by" comes from `seeded/MATRIX.json` (all checks at scale 0.3).\n\n')
+             '"own check" is the verdict of the quick tier of the property the change was written against (seed 0), as re-evaluated with the final machinery on the final /repo; "also caught by" lists other checks recorded in the change's meta.json and, for rounds 1-2, `seeded/MATRIX.json` (all checks against all changes at scale 0.3; not repeated for later rounds). A `(thorough: ...)` note gives the thorough-tier verdict where the quick tier missed for sampling reasons. Why each remaining miss is a miss is in DESIGN.md section 12.\n\n')
     fp.write('| id | property | change | needs | own check | violated clauses | also caught by |\n|---|---|---|---|---|---|---|\n')
     for r in rows:
         fp.write('| %s | %s | %s | %s | %s | %s | %s |\n' % r)
-    det = sum(1 for r in rows if r[4] == 'DETECTED')
+    det = sum(1 for r in rows if r[4].startswith('DETECTED'))
     fp.write('\n%d of %d detected by their own property\'s quick check.\n' % (det, len(rows)))
-print(len(rows), 'rows;', sum(1 for r in rows if r[4] == 'DETECTED'), 'detected')
+print(len(rows), 'rows;', sum(1 for r in rows if r[4].startswith('DETECTED')), 'detected')
 for r in rows:
-    if r[4] != 'DETECTED': print('  not detected:', r[0], r[4])
+    if not r[4].startswith('DETECTED'): print('  not detected:', r[0], r[4], r[6])
